@@ -189,7 +189,9 @@ def discharge_lib(site, bs):
         if cands and all(varpaths.always_variant(iv, x) is True for x in cands):
             return "C12.TUPLEOPT", "on every path that reaches it the element is Some (a failed element makes the accumulator Some, and that path returns Err before any unwrap)"
     # C12.ARRAY: panic on the Err edge of Vec<T>::try_into::<[T; N]>
-    if site.kind == "panic" and kind == "array":
+    if site.kind == "panic" and root_kind == "array":
+        und_ = [False]
+
         def array_guard(v_, bs_, bbs):
             for x in v_.reach:
                 cx = v_.callee(x)
@@ -198,24 +200,30 @@ def discharge_lib(site, bs):
                     if k2 == "switch":
                         et = v_.variant_target(info, "Err")
                         okt = v_.variant_target(info, "Ok")
-                        if et is not None and et != okt and all(v_.dominates(et, y) for y in bbs) and acc_none_edge_dominates(v_, bs_, x):
+                        if et is not None and et != okt and all(v_.dominates(et, y) for y in bbs) and not bs_.accumulators():
+                            # the element faults are recorded somewhere this rule does not see (a captured accumulator that a
+                            # closure updates): neither "no element failed here" nor its contrary was read
+                            und_[0] = True
+                        elif et is not None and et != okt and all(v_.dominates(et, y) for y in bbs) and acc_none_edge_dominates(v_, bs_, x):
                             fs, ob = coll.c_array(v_, bs_)
                             if not fs:
                                 return True
                             if all(getattr(f, "undecided", False) for f in fs):
                                 und_[0] = True
             return False
-        und_ = [False]
         why = "the vector holds exactly N elements here (arity check, one push per element, no element failed)"
-        if array_guard(v, bs, [bb]):
+        if root_body is b and array_guard(v, bs, [bb]):
             return "C12.ARRAY", why
-        # the element loop may live in a helper shared with the other sequence containers: judged with it expanded
+        # the element loop may live in a helper shared with the other sequence containers, the panic in the closure of an
+        # `unwrap_or_else`: judged with helpers expanded and combinators written out
         import inline
-        ib = inline.inlined(b.crate, b)
-        if ib is not b:
-            iv = View(ib)
-            at = t.get("at")
-            cands = [x for x in iv.reach if iv.blocks[x]["term"].get("at") == at and iv.blocks[x]["term"]["k"] == t["k"] and not iv.blocks[x].get("inlined_from")]
+        at = t.get("at")
+        ib = inline.inlined(root_body.crate, root_body)
+        for variant_body in (ib, inline.combinators_expanded(root_body.crate, ib)):
+            if variant_body is b:
+                continue
+            iv = View(variant_body)
+            cands = [x for x in iv.reach if iv.blocks[x]["term"].get("at") == at and iv.blocks[x]["term"]["k"] == t["k"]]
             if cands and array_guard(iv, BodySites(iv), cands):
                 return "C12.ARRAY", why
         if und_[0]:
@@ -321,7 +329,69 @@ def discharge_error_type(site):
             cw = v.callee(arg[1])
             if cw.self_ty is not None and site.b.crate.tys(cw.self_ty) == "std::string::String":
                 return "C12.FMTSTRING", "writing into a String cannot fail (its fmt::Write impl always returns Ok; the formatted values are integers / strings)"
+        # the same through `write!(s, ..).and_then(|()| helper(&mut s, ..))` chains and match arms: every fmt::Result that can arrive
+        # here was produced by writing into a String
+        a0 = t["args"][0]
+        if a0["k"] in ("move", "copy") and site.b.crate.tys(a0["place"]["ty"]) == "std::result::Result<(), std::fmt::Error>":
+            if _only_string_writes(site.b.crate, site.b, set()):
+                return "C12.FMTSTRING", "every fmt::Result made in this function, its closures and the local helpers it calls comes from writing into a String (which cannot fail)"
     return None
+
+
+FMT_RESULT = "std::result::Result<(), std::fmt::Error>"
+FMT_COMBINATORS = ("std::result::Result::and_then", "std::result::Result::map", "std::result::Result::or", "std::result::Result::and", "std::ops::Try::branch",
+                   "std::ops::FromResidual::from_residual", "std::result::Result::unwrap", "std::result::Result::expect", "std::ops::FnOnce::call_once",
+                   "std::ops::FnMut::call_mut", "std::ops::Fn::call", "std::iter::Iterator::try_for_each", "std::iter::Iterator::try_fold")
+
+
+def _only_string_writes(crate, body, seen, subst=None):
+    subst = subst or {}
+    key_ = (body.path, tuple(sorted(subst.items())))
+    if key_ in seen:
+        return True
+    if len(seen) > 16:
+        return False
+    seen.add(key_)
+    v = View(body)
+    writes = 0
+    for x in v.reach:
+        for st in v.blocks[x]["stmts"]:
+            if st["k"] == "assign" and st["rv"]["k"] == "agg":
+                if st["rv"].get("path") == "std::fmt::Error":
+                    return False
+                if st["rv"].get("ak") == "closure":
+                    cb = next((b2 for b2 in crate.bodies if b2.path == st["rv"].get("path")), None)
+                    if cb is not None and not _only_string_writes(crate, cb, seen, subst):
+                        return False
+        tm = v.blocks[x]["term"]
+        if tm["k"] != "call":
+            continue
+        c = v.callee(x)
+        dty = crate.tys(tm["dest"]["ty"]) if tm["dest"].get("ty") is not None else ""
+        if c is None or c.fn is None:
+            if dty == FMT_RESULT:
+                return False
+            continue
+        nm = callee_name(c)
+        if nm in ("std::fmt::Write::write_fmt", "std::fmt::Write::write_str", "std::fmt::Write::write_char"):
+            st_ = crate.tys(c.self_ty) if c.self_ty is not None else None
+            if subst.get(st_, st_) != "std::string::String":
+                return False
+            continue
+        if dty != FMT_RESULT:
+            continue
+        if nm in FMT_COMBINATORS:
+            continue
+        if c.krate == crate.name or c.krate == "deserr":
+            hb = next((b2 for b2 in crate.bodies if npath(b2.path) == npath(c.path) and b2.kind in ("Fn", "AssocFn")), None)
+            if hb is not None:
+                gnames = [g for g in (hb.d.get("generics") or []) if not g.startswith("'")]
+                gargs = [g for g in (c.gargs or []) if isinstance(g, int)]
+                sub2 = {n_: subst.get(crate.tys(g), crate.tys(g)) for n_, g in zip(gnames, gargs)} if len(gnames) == len(gargs) else {}
+                if _only_string_writes(crate, hb, seen, sub2):
+                    continue
+        return False
+    return True
 
 
 def discharge_derived(site, bs, sk):
